@@ -115,3 +115,10 @@ def c_order(ctx, it, cfg):
         ctx.prove('mass-balance-sees-the-new-distribution-and-time', calls[1][2] is xnew and calls[0][1] is xnew and eq(calls[1][1], tnew))
         ctx.prove('the-recorded-row-is-the-one-the-balance-produced', calls[4][1] is calls[1][3] and calls[4][1] is m.fields['_currY'])
         ctx.prove('distribution-updated-with-the-same-state', calls[5][2] is xnew)
+
+
+# the balance holds at every RECORDED step only if the grid operations applied after the step's balance keep the particle
+# volume: re-mesh preserves the third moment, extension keeps the populated classes (contracts shared with C08)
+from . import c08 as _c08
+REG.contracts.append(_c08.c_change.contract)
+REG.contracts.append(_c08.c_add.contract)
